@@ -63,6 +63,7 @@ type CorrScenario struct {
 	Size     int    `json:"size"`
 	Hold     int    `json:"hold"`
 	Barrier  bool   `json:"barrier"`
+	Mixed    bool   `json:"mixed"`
 }
 
 // PStr is the argument type used with the plain codec (a named string type).
@@ -102,6 +103,13 @@ func (c *CT) Call(arg *Arg) (*Res, *erpc.Status) {
 		func() (string, string) { return arg.Tag, arg.Pad })
 	replyMeta(c, tag)
 	return &Res{Tag: F(tag), Pad: pad}, nil
+}
+
+// Fail is a handler that sees its input like Call and then fails with a status that names its own call: /ct/fail
+func (c *CT) Fail(arg *Arg) (*Res, *erpc.Status) {
+	tag, _ := curCorr.handle("call", Name(c.Session()), c.Seq(), func() string { return metaView(c) },
+		func() (string, string) { return arg.Tag, arg.Pad })
+	return nil, erpc.NewStatus(1001, "m-"+tag, "c-"+tag)
 }
 
 // PT is the PUSH controller for struct arguments: /pt/push
@@ -452,24 +460,33 @@ func runCorr(rec *Rec, sc *CorrScenario, n int) {
 					}
 					arg, res, read := mk(tag, pad)
 					atomic.AddInt64(&started, 1)
+					exp, route := "ok", callRoute
+					if sc.Mixed && kind != 2 && sc.Codec != "s" && sc.Codec != "p" && sc.Codec != "t" {
+						switch (g*7 + i) % 5 {
+						case 3:
+							exp, route = "hstat", "/ct/fail"
+						case 4:
+							exp, route = "nf", "/ct/nothere"
+						}
+					}
 					switch kind {
 					case 2:
 						rec.Emit("CallStart", "c", tag, "kind", "push", "padsum", Sum(pad), "padlen", len(pad))
 						st := sess.Push(pushRoute, arg, settings...)
 						rec.Emit("PushRet", "c", tag, "code", st.Code())
 					default:
-						rec.Emit("CallStart", "c", tag, "kind", "call", "padsum", Sum(pad), "padlen", len(pad))
+						rec.Emit("CallStart", "c", tag, "kind", "call", "padsum", Sum(pad), "padlen", len(pad), "exp", exp)
 						var cmd erpc.CallCmd
 						if kind == 1 {
 							ch := make(chan erpc.CallCmd, 1)
-							sess.AsyncCall(callRoute, arg, res, ch, settings...)
+							sess.AsyncCall(route, arg, res, ch, settings...)
 							select {
 							case cmd = <-ch:
 							case <-time.After(5 * time.Second):
 							}
 						} else {
 							d := make(chan erpc.CallCmd, 1)
-							go func() { d <- sess.Call(callRoute, arg, res, settings...) }()
+							go func() { d <- sess.Call(route, arg, res, settings...) }()
 							select {
 							case cmd = <-d:
 							case <-time.After(5 * time.Second):
